@@ -2,10 +2,12 @@
 
    The initial state of every loader satisfies the file-buffer invariant W (Proofs/FileInv.v) - whatever the SAUCE record
    says (height 0 included) -; every character keeps it (Gen/FileAnsiSafeW.v, Gen/FileEmuSafeW.v = C01's scripts over the file
-   core; ASCII, ATASCII and PETSCII below); the epilogue of parse_with_parser has no reachable panic site when the sixel
-   oracle is sane.  What remains is exactly: the macro-nesting overflow (C01's known class) and a sixel next to a degenerate
-   font 0 (new finding, Known 3). *)
+   core; ASCII, ATASCII and PETSCII below); the epilogue of parse_with_parser has no reachable panic site when font 0 is a
+   font BitFont::from_bytes returned (since fix fB: 1..=8 x 1..=32, Props/C17.v loaded_font_dims) and the sixels lie inside i32.
+   Both former exceptions are repaired: the macro-nesting overflow (C01's class; nesting limit) and a sixel next to a degenerate
+   font 0 (Known 3, C02-sixel-font0; fix fB: the font loaders refuse such a font). *)
 From Coq Require Import ZArith NArith List Bool Lia.
+From IE Require Lib.C17Lib Gen.FontConsts Model.Font Proofs.FontProofs.      (* C17: the bitmap font loaders (used qualified) *)
 From IE Require Import Model.FileCore Gen.FileAnsiTok Gen.FileEmu Gen.FilePetscii Proofs.TermProofs Proofs.FileAnsiLemmas Proofs.FileEmuLemmas
                        Proofs.FileInv Gen.FileAnsiSafeW Gen.FileEmuSafeW Model.FileLoad.
 Import ListNotations.
@@ -226,6 +228,58 @@ Lemma text_load_standalone_total : forall f s fw fh done serr cs, (f = TAsc \/ f
   (exists t l, text_load f s fw fh done serr cs = TOk t l) \/ text_load f s fw fh done serr cs = TErr.
 Proof. intros f s fw fh done serr cs _. apply text_load_returns. Qed.
 
+(* ---- fix fB: font 0 is a loaded font ------------------------------------------------------------------------------------------------------ *)
+(* The size of font 0 is no longer a free parameter of the hypothesis: every font a text loader can put into the font table comes out of
+   BitFont::from_bytes (the default font and `CSI .. SP D`: from_ansi_font_page; a SAUCE font name: from_sauce_name; a `CTerm:Font:` DCS
+   string: load_custom_font - all three call from_bytes; pinned by translator/gen_c02.py), and C17 proves that such a font is
+   1..=MAX_FONT_WIDTH x 1..=MAX_FONT_HEIGHT (8 x 32).  What is left is a condition on the sixels alone. *)
+Definition FW_MAX : Z := Z.of_N FontConsts.MAX_FONT_WIDTH.
+Definition FH_MAX : Z := Z.of_N FontConsts.MAX_FONT_HEIGHT.
+Definition FontDims (fw fh : Z) : Prop := 1 <= fw <= FW_MAX /\ 1 <= fh <= FH_MAX.
+Definition LoadedFont (fw fh : Z) : Prop :=
+  exists data f, Font.from_bytes data = C17Lib.Ok f /\ Font.f_w f = fw /\ Font.f_h f = fh.
+Lemma loaded_font_dims : forall fw fh, LoadedFont fw fh -> FontDims fw fh.
+Proof. intros fw fh (data & f & E & <- & <-). exact (FontProofs.loaded_font_dims_proof data f E). Qed.
+(* the default font: an 8 x 16 PSF2 file (here: its header without glyphs) *)
+Lemma loaded_font_8x16 : LoadedFont 8 16.
+Proof.
+  exists (C17Lib.u32le FontConsts.PSF2_MAGIC ++ C17Lib.u32le 0 ++ C17Lib.u32le 32 ++ C17Lib.u32le 0 ++ C17Lib.u32le 0 ++ C17Lib.u32le 16
+          ++ C17Lib.u32le 16 ++ C17Lib.u32le 8)%N, (Font.mkFont 8 16 0 []).
+  split; [vm_compute; reflexivity|split; reflexivity].
+Qed.
+(* a decoded sixel whose pixel rectangle lies inside i32 for EVERY loadable font: position and size are not negative,
+   (x + 1) * 8 + width and (y + 1) * 32 + height do not exceed i32::MAX *)
+Definition SixelBounded (s : sixel) : Prop :=
+  0 <= sx_x s /\ 0 <= sx_y s /\ 0 <= sx_w s /\ 0 <= sx_h s /\
+  (sx_x s + 1) * FW_MAX + sx_w s <= I32_MAX /\ (sx_y s + 1) * FH_MAX + sx_h s <= I32_MAX.
+Lemma bounded_sane : forall fw fh s, FontDims fw fh -> SixelBounded s -> SixelSane fw fh s.
+Proof. intros fw fh s ((A & B) & (C & D)) (E & F & G & H & I & J). unfold SixelSane. repeat split; try assumption; nia. Qed.
+Lemma bounded_ok : forall fw fh done, FontDims fw fh -> Forall SixelBounded done -> SixelOk fw fh done.
+Proof.
+  intros fw fh done Hd Hs. right. destruct Hd as ((A & B) & (C & D)). repeat split; try assumption.
+  eapply Forall_impl; [|exact Hs]. intros s Hb. apply bounded_sane; [repeat split; assumption|exact Hb].
+Qed.
+Lemma sixel_epilogue_bounded : forall fw fh done, FontDims fw fh -> Forall SixelBounded done -> exists l, sixel_epilogue fw fh done = ROk l.
+Proof. intros. apply sixel_epilogue_ok, bounded_ok; assumption. Qed.
+Lemma text_load_total_bounded : forall f s fw fh done serr cs, fsauce_nonneg s -> FontDims fw fh -> Forall SixelBounded done ->
+  match text_load f s fw fh done serr cs with TOk _ _ | TErr => True | TPanic _ => False end.
+Proof. intros. apply text_load_total_proof; [assumption|apply bounded_ok; assumption]. Qed.
+Lemma text_load_returns_bounded : forall f s fw fh done serr cs, fsauce_nonneg s -> FontDims fw fh -> Forall SixelBounded done ->
+  (exists t l, text_load f s fw fh done serr cs = TOk t l) \/ text_load f s fw fh done serr cs = TErr.
+Proof. intros. apply text_load_returns; [assumption|apply bounded_ok; assumption]. Qed.
+Lemma text_load_standalone_bounded : forall f s fw fh done serr cs, (f = TAsc \/ f = TSeq \/ f = TAta) -> fsauce_nonneg s ->
+  FontDims fw fh -> Forall SixelBounded done ->
+  (exists t l, text_load f s fw fh done serr cs = TOk t l) \/ text_load f s fw fh done serr cs = TErr.
+Proof. intros f s fw fh done serr cs _. apply text_load_returns_bounded. Qed.
+(* with the font itself in the statement: font 0 = what from_bytes made of ANY byte string *)
+Lemma text_load_total_loaded_font : forall f s data font0 done serr cs, fsauce_nonneg s ->
+  Font.from_bytes data = C17Lib.Ok font0 -> Forall SixelBounded done ->
+  match text_load f s (Font.f_w font0) (Font.f_h font0) done serr cs with TOk _ _ | TErr => True | TPanic _ => False end.
+Proof.
+  intros f s data font0 done serr cs Hs E Hb. apply text_load_total_bounded; [exact Hs| |exact Hb].
+  exact (FontProofs.loaded_font_dims_proof data font0 E).
+Qed.
+
 (* ---- the repaired class and the one that stays outside ------------------------------------------------------------------------------------- *)
 (* (1) the former C02-stackoverflow:invoke_macro_by_id: `ESC P 1;0;1 ! z 1B5B312A7A ESC \` stores macro 1 = `ESC [ 1 * z`, `ESC [ 1 * z` runs it:
    the file loads (the invocation is one error value inside the parser, parse_with_parser logs it) *)
@@ -233,10 +287,46 @@ Definition macro_bomb : list Z :=
   [27; 80; 49; 59; 48; 59; 49; 33; 122; 49; 66; 53; 66; 51; 49; 50; 65; 55; 65; 27; 92; 27; 91; 49; 42; 122].
 Lemma macro_bomb_loads : match text_load TAns None 8 16 [] false macro_bomb with TOk t [] => (bh t, cx t, cy t) = (0, 0, 0) | _ => False end.
 Proof. vm_compute. reflexivity. Qed.
-(* (2) a sixel next to a font 0 of width 0 / of width 2^30 (cursor in column 2) / of size -1 x -1 (PSF2 header fields are u32) *)
+(* (2) the former C02-sixel-font0: a sixel next to a font 0 of width 0 / of width 2^30 (cursor in column 2) / of size -1 x -1 (PSF2 header
+   fields are u32).  The epilogue is unchanged - these computations still fail -, but no loaded font has such a size any more: the loader
+   before fix fB (FontProofs.load_psf2_before_fix) returned these fonts for a bare 32 byte header, from_bytes now refuses them. *)
 Lemma sixel_div_zero_witness : sixel_epilogue 0 16 [mkSx 0 0 4 6] = RPanic SITE_SIXEL_DIV.
 Proof. vm_compute. reflexivity. Qed.
 Lemma sixel_mul_overflow_witness : sixel_epilogue 1073741824 16 [mkSx 2 0 4 6] = RPanic SITE_SIXEL_MUL.
 Proof. vm_compute. reflexivity. Qed.
 Lemma sixel_negative_layer_witness : sixel_epilogue (-1) (-1) [mkSx 0 0 4 6] = RPanic SITE_LAYER_NEW.
 Proof. vm_compute. reflexivity. Qed.
+Lemma sixel_div_zero_height_witness : sixel_epilogue 8 0 [mkSx 0 0 4 6] = RPanic SITE_SIXEL_DIV.
+Proof. vm_compute. reflexivity. Qed.
+(* the four headers: what the old loader made of them, and what the epilogue does with that font *)
+Lemma known_3_before_fix :
+  (exists f, FontProofs.load_psf2_before_fix (FontProofs.psf2_header 16 0) = C17Lib.Ok f /\
+             sixel_epilogue (Font.f_w f) (Font.f_h f) [mkSx 0 0 4 6] = RPanic SITE_SIXEL_DIV) /\
+  (exists f, FontProofs.load_psf2_before_fix (FontProofs.psf2_header 0 8) = C17Lib.Ok f /\
+             sixel_epilogue (Font.f_w f) (Font.f_h f) [mkSx 0 0 4 6] = RPanic SITE_SIXEL_DIV) /\
+  (exists f, FontProofs.load_psf2_before_fix (FontProofs.psf2_header 16 1073741824) = C17Lib.Ok f /\
+             sixel_epilogue (Font.f_w f) (Font.f_h f) [mkSx 2 0 4 6] = RPanic SITE_SIXEL_MUL) /\
+  (exists f, FontProofs.load_psf2_before_fix (FontProofs.psf2_header 4294967295 4294967295) = C17Lib.Ok f /\
+             sixel_epilogue (Font.f_w f) (Font.f_h f) [mkSx 0 0 4 6] = RPanic SITE_LAYER_NEW).
+Proof.
+  destruct FontProofs.psf2_dims_before_fix_refuted_proof as (A & B & C & D).
+  repeat split; eexists; (split; [eassumption|vm_compute; reflexivity]).
+Qed.
+(* ... and after: from_bytes refuses all four (and a PSF1 header with charsize 0), so the `CTerm:Font:0:` string is an error value of the
+   parser, font 0 stays the default 8 x 16 font and the file - font string, then a 4 x 6 pixel sixel - loads with one 1 x 1 Image layer.
+   [font0_w0_file] = ESC P CTerm:Font:0: base64(psf2_header 16 0) ESC \ ESC P q #0;2;0;0;0#0~~~~ ESC \ *)
+Definition font0_w0_file : list Z :=
+  [27; 80; 67; 84; 101; 114; 109; 58; 70; 111; 110; 116; 58; 48; 58] ++
+  [99; 114; 86; 75; 104; 103; 65; 65; 65; 65; 65; 103; 65; 65; 65; 65; 65; 65; 65; 65; 65; 65; 65; 65; 65; 65; 65; 65; 65; 65; 65; 65; 69; 65; 65; 65; 65; 65; 65; 65; 65; 65; 65; 61] ++
+  [27; 92; 27; 80; 113; 35; 48; 59; 50; 59; 48; 59; 48; 59; 48; 35; 48; 126; 126; 126; 126; 27; 92].
+Lemma known_3_after_fix :
+  Font.from_bytes (FontProofs.psf2_header 16 0) = C17Lib.Err Font.E_SIZE /\ Font.from_bytes (FontProofs.psf2_header 0 8) = C17Lib.Err Font.E_SIZE /\
+  Font.from_bytes (FontProofs.psf2_header 16 1073741824) = C17Lib.Err Font.E_SIZE /\
+  Font.from_bytes (FontProofs.psf2_header 4294967295 4294967295) = C17Lib.Err Font.E_SIZE /\
+  Font.from_bytes [54; 4; 0; 0]%N = C17Lib.Err Font.E_SIZE /\
+  match text_load TAns None 8 16 [mkSx 0 0 4 6] false font0_w0_file with TOk t [(1, 1)] => (bh t, cx t, cy t) = (1, 0, 0) | _ => False end.
+Proof.
+  destruct FontProofs.psf2_dims_after_fix_proof as (A & B & C & D & E & _).
+  split; [exact A|]. split; [exact B|]. split; [exact C|]. split; [exact D|]. split; [exact E|].
+  vm_compute. reflexivity.
+Qed.
